@@ -1084,7 +1084,13 @@ def apply_op(s, op, step=0):
             opt = torch.optim.SGD([p.tensor for p in ps], lr=1.0)
             opt.zero_grad()
             if loss.requires_grad:       # (a loss that does not depend on the targets: the step is a no-op)
-                loss.backward()
+                try:
+                    loss.backward()
+                except RuntimeError:
+                    # differentiating the model fails (in-place arithmetic inside _call): a gradient defect, outside C11
+                    for p in ps:
+                        p.requires_grad = False
+                    return []
             gmax = max([float(p.tensor.grad.abs().max()) if p.tensor.grad is not None else 0.0 for p in ps] + [1e-12])
             for g in opt.param_groups:
                 g["lr"] = op.get("step", 0.01) / gmax
@@ -1731,8 +1737,9 @@ def check_handler(cls_qual, hname, scn_names):
         if not deps:
             info["verdict"] = "no dependency read by the class notifies through this handler: nothing to invalidate or propagate"
             continue
-        if not st["branch_free"]:
-            info["note"] = "handler has branches: checked per notifying dependency, each dependency separately"
+        if not st["branch_free"] or st["uses_arguments"]:
+            raise Undecided("%s.%s branches or inspects its arguments: one execution per dependency does not cover every notification "
+                            "(the U argument needs a straight-line handler)" % (cls.__name__, hname))
         # (ii) flags, (iii) propagation: fire each read dependency and look
         for key, r in deps:
             dep = r["obj"]
@@ -1873,9 +1880,16 @@ def check_getter(cls_qual, name, flag, scn_names):
         get = _getter_callable(s, name, kind)
         allflags = [f for f in a.flags if f in out.__dict__]
 
+        others = [(o, [f for f in dirty_flags(type(o)) if f in getattr(o, "__dict__", {})]) for o in s.all_objects().values() if o is not out]
+
         def force():
+            # the handlers are assumed correct here (that is obligation (b)): every dirty flag of every object of the
+            # scenario is raised, so that only the getter under contract is judged
             for f in allflags:
                 object.__setattr__(out, f, True)
+            for o, fl in others:
+                for f in fl:
+                    object.__setattr__(o, f, True)
 
         def fresh_value():
             fs = build(sn, s.state())
@@ -2166,6 +2180,37 @@ def _replay_optimizer(args):
     return True, "Optimizer.run (%s): %d steps, every step followed by a notification before the next evaluation" % (args.get("algorithm", "SGD"), events.count("step"))
 
 
+def optimizer_step_followed_by_notification(fname):
+    """AST of the real Optimizer.<fname>: every statement calling self.optimizer.step(...) is immediately followed, in the
+    same block, by `for p in self.parameters: p.fire_parameter_changed()` — for the body of the loop, i.e. any iteration"""
+    from torchtree.optim.optimizer import Optimizer
+    node = _fn_ast(getattr(Optimizer, fname))
+    if node is None:
+        raise Undecided("source of Optimizer.%s unavailable" % fname)
+    sites, bad = 0, []
+
+    def is_step(st):
+        return any(isinstance(x, ast.Call) and isinstance(x.func, ast.Attribute) and x.func.attr == "step"
+                   and isinstance(x.func.value, ast.Attribute) and x.func.value.attr == "optimizer" for x in ast.walk(st)) \
+            and not isinstance(st, (ast.For, ast.While, ast.If, ast.With, ast.Try, ast.FunctionDef))
+
+    def is_fire_loop(st):
+        return isinstance(st, ast.For) and isinstance(st.iter, ast.Attribute) and st.iter.attr == "parameters" and any(
+            isinstance(x, ast.Call) and isinstance(x.func, ast.Attribute) and x.func.attr == "fire_parameter_changed" for x in ast.walk(st))
+    for blk in ast.walk(node):
+        for field in ("body", "orelse", "finalbody"):
+            stmts = getattr(blk, field, None)
+            if not isinstance(stmts, list):
+                continue
+            for i, st in enumerate(stmts):
+                if isinstance(st, ast.stmt) and is_step(st):
+                    sites += 1
+                    nxt = stmts[i + 1] if i + 1 < len(stmts) else None
+                    if nxt is None or not is_fire_loop(nxt):
+                        bad.append("line %d: `%s` is followed by `%s`" % (st.lineno, ast.unparse(st)[:60], ast.unparse(nxt)[:60] if nxt is not None else "<end of block>"))
+    return sites, bad
+
+
 def check_optimizer(args):
     args = dict(args, kind="optimizer")
     try:
@@ -2177,7 +2222,13 @@ def check_optimizer(args):
     if problems:
         raise Refuted(problems[0], witness={"replay_args": args, "problems": problems[:4], "events": events[:40]},
                       replay={"kind": "custom", "contract": "C11", "func": "replay_history", "args": args}, confirmed=True)
-    return {"backend": "heap-proxies", "events": events[:30],
+    fname = "_run_closure" if args.get("algorithm") == "LBFGS" else "_run"
+    sites, bad = optimizer_step_followed_by_notification(fname)
+    if sites == 0:
+        raise Undecided("no optimizer.step() call located in Optimizer.%s" % fname)
+    if bad:
+        raise Refuted("Optimizer.%s: %s" % (fname, "; ".join(bad)), witness={"ast": bad}, replay=None, confirmed=False)
+    return {"backend": "heap-proxies+ast", "events": events[:30],
             "statement": "every optimizer.step() of the real Optimizer loop is followed by fire_parameter_changed on each optimised parameter before any model is evaluated, and at exit"}
 
 
@@ -2658,8 +2709,9 @@ def obligations(tier, seed):
                 (lambda base=base, targets=targets, m=m: check_mutation("%s.%s on %s" % (base, m, targets), {"graph": K, "mutation": "operator." + m, "operator": base, "targets": targets, "seed": 9})), A)
     for m in ("step", "step+reject"):
         add("C11.a.notify[HMCOperator.%s]" % ("_step" if m == "step" else "reject"),
-            (lambda m=m: check_mutation("HMCOperator.%s" % m, {"graph": "graph.joint_parameter_kinds", "mutation": "operator." + m, "operator": "HMCOperator", "targets": ["z", "b"], "joint": "joint", "seed": 9})), A)
-    add("C11.a.notify[GMRFPiecewiseCoalescentBlockUpdatingOperator._step]", _ob_gmrf_operator, A)
+            (lambda m=m: check_mutation("HMCOperator.%s" % m, {"graph": "graph.joint_parameter_kinds", "mutation": "operator." + m, "operator": "HMCOperator", "targets": ["z", "b"], "joint": "joint", "seed": 9})),
+            A + " (bounded: one trajectory of the real integrator)", tag="B")
+    add("C11.a.notify[GMRFPiecewiseCoalescentBlockUpdatingOperator._step]", _ob_gmrf_operator, A + " (bounded: one proposal)", tag="B")
     add("C11.a.notify[Optimizer._run]", lambda: check_optimizer({"algorithm": "SGD", "iterations": 3}), A)
     add("C11.a.notify[Optimizer._run_closure]", lambda: [check_optimizer({"algorithm": "LBFGS", "iterations": 2, "max_iter": mi}) for mi in (1, 5, 20)][-1], A)
 
